@@ -429,3 +429,38 @@ func ZZ_C10_overridesPerContainer() {
 	nondet.Assert("C10.per-container.stable", compareCurrentPodWithNewPod(params, pod, NewNodeItem(node, nil)))
 	nondet.Reach("C10.per-container.both-overridden", choice["agent"] == "limits-cpu" && choice["sidecar"] == "requests-memory")
 }
+
+// ZZ_C10_staleStampsInTemplate: "for every pod template": the template may itself carry the
+// controller's stamp annotations with stale values (a template copied from the manifest of a
+// running pod).  On the created pod the controller's own stamps win — the template hash is the
+// replica set's, the node-override hash is present exactly when the node carries overrides — so the
+// pod "is recognised as up to date for the same inputs" and is not replaced for ever.
+func ZZ_C10_staleStampsInTemplate() {
+	rs := zzReplicaSet()
+	rs.Spec.Template = corev1.PodTemplateSpec{
+		ObjectMeta: metav1.ObjectMeta{Labels: map[string]string{"app": "agent"}, Annotations: map[string]string{"team": "x"}},
+		Spec:       corev1.PodSpec{Containers: []corev1.Container{{Name: "agent", Image: "agent:1", Resources: zzRes("100m")}}},
+	}
+	if nondet.Bool("staleTemplateHash") {
+		rs.Spec.Template.Annotations[datadoghqv1alpha1.MD5ExtendedDaemonSetAnnotationKey] = "0123456789abcdef0123456789abcdef"
+	}
+	if nondet.Bool("staleNodeHash") {
+		rs.Spec.Template.Annotations[datadoghqv1alpha1.MD5NodeExtendedDaemonSetAnnotationKey] = "fedcba9876543210fedcba9876543210"
+	}
+	node := &corev1.Node{ObjectMeta: metav1.ObjectMeta{Name: "node0", Annotations: map[string]string{}}}
+	if nondet.Bool("nodeOverride") {
+		node.Annotations[zzAnnPrefix+"agent"] = `{"requests":{"cpu":"200m"}}`
+	}
+	affinity := nondet.Bool("addNodeAffinity")
+	pod, err := podutils.CreatePodFromDaemonSetReplicaSet(fakeapi.NewScheme(), rs, node, nil, affinity)
+	nondet.Assert("C10.stale-stamps.noerror", err == nil && pod != nil)
+	if err != nil || pod == nil {
+		return
+	}
+	nondet.Assert("C10.stale-stamps.template-hash-is-the-replicasets", pod.Annotations[datadoghqv1alpha1.MD5ExtendedDaemonSetAnnotationKey] == rs.Spec.TemplateGeneration)
+	nondet.Assert("C10.stale-stamps.user-annotation-kept", pod.Annotations["team"] == "x")
+	ds := zzDaemonset(map[string]string{})
+	params := &Parameters{EDSName: zzEDSName, Strategy: &ds.Spec.Strategy, Replicaset: rs}
+	nondet.Assert("C10.stale-stamps.recognised-as-up-to-date", compareCurrentPodWithNewPod(params, pod, NewNodeItem(node, nil)))
+	nondet.Reach("C10.stale-stamps.both", pod.Annotations["team"] == "x" && len(node.Annotations) == 0)
+}
